@@ -10,6 +10,7 @@ E5 explicit raises construct allowed classes (stubs are shown unreachable by the
 """
 from __future__ import annotations
 import ast
+import os
 from typing import Dict, List, Optional, Set, Tuple
 
 from ..program import AnalysisError, ClassInfo, FunctionInfo, fn_nodes, norm
@@ -923,7 +924,42 @@ def _dominated_by_key_type(eng, s: CallSite, ckt, visiting: Set[int]) -> bool:
     return all(_dominated_by_key_type(eng, c, ckt, visiting) for c in callers)
 
 
+def e6_none_safety(ctx) -> None:
+    """type-level witness: the repository's own type checker (mypy, run as a library by the typed layer) reports no place in
+    consume-reachable code where an Optional value is used as if it were present.  Deleting a `None` guard makes the program
+    fail to type-check at exactly the use that would raise AttributeError / TypeError for a crafted token."""
+    import re as _re
+    eng = ctx.eng
+    if eng.types is None:
+        raise AnalysisError("E6 needs the typed layer")
+    scope = set(consume_scope(eng))
+    by_path = {}
+    for m in eng.prog.modules.values():
+        by_path[m.relpath.replace(os.sep, "/")] = m
+    n = 0
+    for d in eng.types.diagnostics:
+        mm = _re.match(r"(.+?):(\d+)(?::\d+)?: error: (.*?)(?:\s+\[([a-z-]+)\])?$", d)
+        if not mm:
+            continue
+        path, line, msg, code = mm.group(1).replace(os.sep, "/"), int(mm.group(2)), mm.group(3), mm.group(4) or ""
+        m = by_path.get(path)
+        if m is None:
+            continue
+        fn = None
+        for f in m.functions:
+            if f.node.lineno <= line <= getattr(f.node, "end_lineno", f.node.lineno) and (fn is None or f.node.lineno >= fn.node.lineno):
+                fn = f
+        none_related = "None" in msg or "Optional[" in msg
+        if fn is not None and fn in scope and none_related and code in ("union-attr", "arg-type", "index", "operator", "call-overload", "attr-defined", "return-value", "misc", "call-arg"):
+            n += 1
+            node = next((x for x in ast.walk(fn.node) if getattr(x, "lineno", None) == line and isinstance(x, ast.stmt)), fn.node)
+            ctx.fail("E6", fn, node, f"a value that may be None is used as if it were present ({msg} [{code}]): a token that leaves it unset escapes as AttributeError / TypeError",
+                     construct=f"Optional use [{code}] {msg[:80]}")
+    ctx.ok("E6", "type checker diagnostics", f"{len(eng.types.diagnostics)} mypy diagnostics in the package, {n} Optional-use diagnostics in consume-reachable functions")
+
+
 def run(ctx) -> None:
+    ctx.guard(e6_none_safety)
     ctx.guard(e1_e5)
     ctx.guard(e2a)
     ctx.guard(e2b)
